@@ -102,6 +102,9 @@ def execute(P, tset, mode, limname, dts, alphas, hmin=None):
     P['flag_styles'] = styles
     phi = pf.CellVariable(m, P['vals'].copy(), BC)
     Df, uf = gen.facevar(pf, m, P['D']), gen.facevar(pf, m, P['u'])
+    if P.get('coef_refreshed_in_place') and all(np.asarray(a_).dtype.kind == 'f' for a_ in list(P['u']) + list(P['D'])):
+        # this execution's coefficient objects have been used before with other values and were refreshed in place
+        Df, uf = gen.facevar_refreshed(pf, m, P['D']), gen.facevar_refreshed(pf, m, P['u'])
     FL = pf.fluxLimiter(limname)
     out = []
     with np.errstate(all='ignore'):
@@ -358,6 +361,9 @@ def run_case(case):
     Q['flag_seed'] = list(case['seed']) + [2]
     P['default_path'] = bool(case['seed'][-1] % 2)            # the two executions of a pair use the two solver routes crosswise
     Q['default_path'] = not P['default_path'] if case['seed'][-1] % 4 < 2 else P['default_path']
+    if case['seed'][-1] % 3 == 1:
+        Q['coef_refreshed_in_place'] = True
+        cov['coefficients_refreshed_in_place'] = 1
     # one execution of the pair hands its matrix terms over in other sparse containers (csc / coo / lil), the other as built
     if case['seed'][-1] % 3 == 0:
         Q['containers'] = int(case['seed'][-1]) + 7
